@@ -261,15 +261,28 @@ def slow_isodata_curve(rng):
 def cases(rng, tier, shard, nshards):
     total = META['quick_cases'] if tier == 'quick' else META['thorough_cases']
     # long curves in every tier (size-dependent fast paths, chunking, subsampling only show there)
-    for _j in range(3 if tier == 'quick' else 5):
-        det = pick(rng, ['curvature', 'dfdt', 'dfdt.get_knee', 'menger']) if _j else 'lmethod.get_knee'
+    for _j in range(4 if tier == 'quick' else 6):
+        det = pick(rng, ['curvature', 'dfdt', 'dfdt.get_knee', 'menger']) if _j >= 2 else 'lmethod.get_knee'
         if det == 'lmethod.get_knee':
             # more than 1000 candidate splits
             pts, meta = gen.curve(rng, nmax=1500, nmin=1010, family=pick(rng, ['mrc', 'inv', 'pwl', 'expdecay']))
+            if rng.random() < 0.6:
+                # integer-quantised samples (counters): the cost over the splits is jagged, its minimiser need not sit next
+                # to the minimiser of any smoothed / subsampled version of it
+                pts = pts.copy()
+                lo, top = float(np.min(pts[:, 1])), float(np.max(pts[:, 1]))
+                pts[:, 1] = np.round((pts[:, 1] - lo) / ((top - lo) or 1.0) * float(pick(rng, [60.0, 250.0, 1000.0])))
+                meta = dict(meta, family=str(meta['family']) + '+quantised')
         elif rng.random() < 0.5:
             pts, meta = gen.long_spiky(rng), {'family': 'long-spiky'}
         else:
             pts, meta = gen.curve(rng, nmax=8000, nmin=3000, family=pick(rng, ['mrc', 'inv', 'noise', 'expdecay']))
+        if det == 'lmethod.get_knee':
+            for f_ in ('bestfit', 'pointfit'):          # every fit x cost on the same long curve
+                for c_ in ('rmse', 'rss'):
+                    yield {'points': pts, 'family': meta['family'], 'layout': 'C', 'detector': det, 'fit': f_, 'cost': c_,
+                           'refinement': 'none', 'limit': 10}
+            continue
         yield {'points': pts, 'family': meta['family'], 'layout': 'C', 'detector': det,
                'fit': pick(rng, ['bestfit', 'pointfit']), 'cost': pick(rng, ['rmse', 'rss']), 'refinement': 'none', 'limit': 10}
     for i in range(shard_count(total, shard, nshards)):
